@@ -63,6 +63,10 @@ def zernike(mask, index, normalize=True, rho=None, theta=None):
     else:
         if theta is None:
             raise ValueError("Both rho and theta must be specified")
+        # evaluate the polynomial in double precision whatever type the
+        # coordinates are held in
+        rho = np.asarray(rho, dtype=float)
+        theta = np.asarray(theta, dtype=float)
 
     m, n = zernike_index(index)
 
